@@ -5,7 +5,7 @@
   [A-Za-z0-9_./#-] is written `%<hex codepoint>;`.  Terms:
      I:<iri>     B:<label>     L:<lex>:<datatype>:<lang>:<val>
   <val> (the python value rdflib computed for the literal):
-     n | i<int> | d<num>/<den> | f<num>/<den> | x | b0 | b1 | tz<us> | tn<us> | D<days> | s | o
+     [!]n | i<int>  (a leading `!` = rdflib says ill_typed) | d<num>/<den> | f<num>/<den> | x | b0 | b1 | tz<us> | tn<us> | D<days> | s | o
 -/
 import PyshaclModel.Rdf
 namespace Pyshacl.Wire
@@ -16,16 +16,16 @@ def hexVal (c : Char) : Option Nat :=
   else if 'A' ≤ c ∧ c ≤ 'F' then some (c.toNat - 'A'.toNat + 10)
   else none
 
-/-- decode `%<hex>;` escapes -/
-def unescapeAux : List Char → Option Nat → List Char → List Char
+/-- decode `%<hex>;` escapes (`%;` is the empty string) -/
+def unescapeAux : List Char → Option (Nat × Nat) → List Char → List Char
   | [], _, acc => acc.reverse
-  | c :: cs, some n, acc =>
-    if c = ';' then unescapeAux cs none (Char.ofNat n :: acc)
+  | c :: cs, some (n, d), acc =>
+    if c = ';' then unescapeAux cs none (if d = 0 then acc else Char.ofNat n :: acc)
     else match hexVal c with
-      | some h => unescapeAux cs (some (n * 16 + h)) acc
+      | some h => unescapeAux cs (some (n * 16 + h, d + 1)) acc
       | none => unescapeAux cs none acc
   | c :: cs, none, acc =>
-    if c = '%' then unescapeAux cs (some 0) acc else unescapeAux cs none (c :: acc)
+    if c = '%' then unescapeAux cs (some (0, 0)) acc else unescapeAux cs none (c :: acc)
 
 def unescape (s : String) : String := String.ofList (unescapeAux s.toList none [])
 
@@ -35,6 +35,7 @@ def safeChar (c : Char) : Bool :=
 def hexDigits (n : Nat) : String := String.ofList (Nat.toDigits 16 n)
 
 def escape (s : String) : String :=
+  if s = "" then "%;" else
   String.join (s.toList.map fun c => if safeChar c then c.toString else "%" ++ hexDigits c.toNat ++ ";")
 
 def parseInt? (s : String) : Option Int := s.toInt?
@@ -66,8 +67,11 @@ def parseTerm (tok : String) : Option Term :=
   else if tok.startsWith "B:" then some (.bnode (unescape (tok.drop 2).toString))
   else if tok.startsWith "L:" then
     match (tok.drop 2).toString.splitOn ":" with
-    | [lex, dt, lang, v] => (parseVal v).map fun val =>
-        .lit { lex := unescape lex, dt := unescape dt, lang := unescape lang, val := val }
+    | [lex, dt, lang, v] =>
+      let ill := v.startsWith "!"
+      let v := if ill then (v.drop 1).toString else v
+      (parseVal v).map fun val =>
+        .lit { lex := unescape lex, dt := unescape dt, lang := unescape lang, val := val, ill := ill }
     | _ => none
   else none
 
@@ -84,7 +88,8 @@ def valStr : LitVal → String
 def termStr : Term → String
   | .iri s => "I:" ++ escape s
   | .bnode s => "B:" ++ escape s
-  | .lit l => "L:" ++ escape l.lex ++ ":" ++ escape l.dt ++ ":" ++ escape l.lang ++ ":" ++ valStr l.val
+  | .lit l => "L:" ++ escape l.lex ++ ":" ++ escape l.dt ++ ":" ++ escape l.lang ++ ":" ++
+      (if l.ill then "!" else "") ++ valStr l.val
 
 /-- parse `n` then `3n` term tokens into a graph; returns the remaining tokens -/
 def parseTriples : Nat → List String → List Triple → Option (List Triple × List String)
